@@ -18,8 +18,8 @@ import LolHtml.Gen.Tags
   mode ambiguity, debug assertions) and the sink is not called, or the sink's `handle_tag` is called
   once with the lexeme `raw = [i, j)`, outline = the token stamped with the simulator's namespace.
 * `C16_outline_recorded` — both combined for a sink that records lexemes and keeps the lexer on.
-* `C16_lookup*`, `C16_context*` — the read API on the token (`Model.AttrsApi`), with the two known
-  findings F8 / F9 proved as counterexamples.
+* `C16_lookup*`, `C16_context*` — the read API on the token (`Model.AttrsApi`); F9 proved as a counterexample
+  (F8 — lookups validated with the setter's reject list — was repaired: `C16_lookup` now holds for every query).
 
 All `C16_outline*` theorems hold for every table satisfying the decidable side-condition
 `TagStatesOk` (`Lemmas/TagStates.lean`), which is evaluated on `Gen.Syntax.table` here.
@@ -480,12 +480,13 @@ example : (runLoop ⟨Gen.Syntax.table, Gen.Tags.cfg, recOps⟩ (brk1.drop 2 ++ 
 
 open LolHtml.Model.AttrsApi
 
-/-- the validator of the SETTER (`Attribute::name_from_string`), which the lookups apply to the query -/
-def QueryAccepted (q : Bytes) : Prop := nameFromString (asciiLowerBytes q) ≠ none
+/-- the validator of the SETTER (`Attribute::name_from_string`): names that `set_attribute` accepts. Lookups and
+`remove_attribute` do NOT go through it (`Attribute::lookup_name`). -/
+def NameAccepted (q : Bytes) : Prop := nameFromString (asciiLowerBytes q) ≠ none
 
-theorem queryAccepted_iff (q : Bytes) :
-    QueryAccepted q ↔ q ≠ [] ∧ ∀ b ∈ q, asciiLower b ∉ Gen.Consts.attrNameReject := by
-  unfold QueryAccepted nameFromString
+theorem nameAccepted_iff (q : Bytes) :
+    NameAccepted q ↔ q ≠ [] ∧ ∀ b ∈ q, asciiLower b ∉ Gen.Consts.attrNameReject := by
+  unfold NameAccepted nameFromString
   cases q with
   | nil => simp [asciiLowerBytes]
   | cons c cs =>
@@ -509,27 +510,13 @@ theorem queryAccepted_iff (q : Bytes) :
       · exact h _ (List.mem_cons_self)
       · exact h _ (List.mem_cons_of_mem _ (List.mem_map.mpr ⟨b, hb', rfl⟩))
 
-/-- **C16_lookup.** For a query the validator accepts, `get_attribute` returns the value of the FIRST
-attribute whose name equals the query ASCII-case-insensitively (`none` if there is none) and
-`has_attribute` says whether there is one. -/
-theorem C16_lookup (attrs : AttrList) (q : Bytes) (hq : QueryAccepted q) :
+
+/-- **C16_lookup** (full strength). For EVERY query, `get_attribute` returns the value of the FIRST attribute whose
+name equals the query ASCII-case-insensitively (`none` if there is none) and `has_attribute` says whether there is one. -/
+theorem C16_lookup (attrs : AttrList) (q : Bytes) :
     getAttribute attrs q = (attrs.find? fun a => eqIgnoreAsciiCase a.1 q).map (·.2.1) ∧
     hasAttribute attrs q = attrs.any fun a => eqIgnoreAsciiCase a.1 q := by
-  unfold QueryAccepted at hq
-  have hm : mapAttribute attrs q = attrs.find? fun a => eqIgnoreAsciiCase a.1 q := by
-    unfold mapAttribute
-    cases hn : nameFromString (asciiLowerBytes q) with
-    | none => exact absurd hn hq
-    | some name =>
-      have : name = asciiLowerBytes q := by
-        unfold nameFromString at hn
-        split at hn
-        · simp at hn
-        · split at hn
-          · simp at hn
-          · simpa using hn.symm
-      subst this
-      rfl
+  have hm : mapAttribute attrs q = attrs.find? fun a => eqIgnoreAsciiCase a.1 q := rfl
   unfold getAttribute hasAttribute
   rw [hm]
   refine ⟨rfl, ?_⟩
@@ -542,9 +529,9 @@ theorem C16_lookup (attrs : AttrList) (q : Bytes) (hq : QueryAccepted q) :
 
 /-- duplicates: the first one wins, whatever follows -/
 theorem C16_lookup_first_duplicate (pre post : AttrList) (a : Bytes × Bytes × AttrOutline) (q : Bytes)
-    (hq : QueryAccepted q) (hpre : ∀ x ∈ pre, eqIgnoreAsciiCase x.1 q = false) (ha : eqIgnoreAsciiCase a.1 q = true) :
+    (hpre : ∀ x ∈ pre, eqIgnoreAsciiCase x.1 q = false) (ha : eqIgnoreAsciiCase a.1 q = true) :
     getAttribute (pre ++ a :: post) q = some a.2.1 := by
-  rw [(C16_lookup _ q hq).1]
+  rw [(C16_lookup _ q).1]
   induction pre with
   | nil => simp [ha]
   | cons x xs ih =>
@@ -561,25 +548,23 @@ theorem C16_attributes (attrs : AttrList) :
 
 theorem C16_tag_name (name : Bytes) : AttrsApi.tagName name = name.map asciiLower := rfl
 
-/-- the full-strength statement of C16's lookup clause: for EVERY query, the lookup finds the first
-attribute whose name matches case-insensitively -/
+/-- the statement of C16's lookup clause: for EVERY query, the lookup finds the first attribute whose name matches
+case-insensitively. (Refuted before the repair of F8 — `<a =b>`, query `=b` —; true now.) -/
 def C16_lookup_statement : Prop :=
   ∀ (attrs : AttrList) (q : Bytes), getAttribute attrs q = (attrs.find? fun a => eqIgnoreAsciiCase a.1 q).map (·.2.1)
 
-/-- **F8** (`<a =b>`): the token lists the attribute named `=b`, `get_attribute("=b")` is `None`,
-because the query goes through the setter's validator which rejects `=`. -/
-theorem C16_lookup_counterexample : ¬C16_lookup_statement := by
-  intro h
-  have := h [([61, 98], [], ⟨⟨3, 5⟩, ⟨5, 5⟩, ⟨3, 5⟩⟩)] [61, 98]
-  revert this
-  decide
+theorem C16_lookup_full : C16_lookup_statement := fun attrs q => (C16_lookup attrs q).1
+
+/-- the former F8 witness: the token of `<a =b>` lists the attribute named `=b`, and `get_attribute("=b")` finds it -/
+example : getAttribute [([61, 98], [], ⟨⟨3, 5⟩, ⟨5, 5⟩, ⟨3, 5⟩⟩)] [61, 98] = some [] := by decide
+example : hasAttribute [([61, 98], [], ⟨⟨3, 5⟩, ⟨5, 5⟩, ⟨3, 5⟩⟩)] [61, 66] = true := by decide
 
 /-- and that token is what the lexer really produces for `<a =b>` -/
 example : (runLoop ⟨Gen.Syntax.table, Gen.Tags.cfg, recOps⟩ [60,97,32,61,98,62] 40 m0).1.x.sink =
     [.tag ⟨0, ⟨0, 6⟩, .startTag ⟨1,2⟩ (NameHash.ofBytes [97]) .html [⟨⟨3,5⟩,⟨5,5⟩,⟨3,5⟩⟩] false⟩] := by decide +kernel
 
-example : QueryAccepted [72, 82, 69, 70] := by unfold QueryAccepted; decide     -- "HREF"
-example : ¬QueryAccepted [61, 98] := by unfold QueryAccepted; decide            -- "=b"
+example : NameAccepted [72, 82, 69, 70] := by unfold NameAccepted; decide     -- "HREF"
+example : ¬NameAccepted [61, 98] := by unfold NameAccepted; decide            -- "=b": `set_attribute` still refuses it
 
 /-! ## C16_reads_after_edits — reads after `set_attribute` / `remove_attribute` / `set_tag_name` -/
 
@@ -611,26 +596,6 @@ theorem nameFromStringE_ok {n l : Bytes} (h : nameFromStringE n = .ok l) : l = n
     · simp at h
     · simpa using h.symm
 
-/-- the two validators agree (the read path uses the one without an error value) -/
-theorem nameFromString_eq (n : Bytes) :
-    nameFromString n = (match nameFromStringE n with | .ok l => some l | .error _ => none) := by
-  unfold nameFromString nameFromStringE
-  split
-  · rfl
-  · cases hf : n.find? (fun ch => Gen.Consts.attrNameReject.contains ch) with
-    | some c =>
-      have : n.any (fun ch => Gen.Consts.attrNameReject.contains ch) = true := by
-        rw [List.any_eq_true]
-        exact ⟨c, List.mem_of_find?_eq_some hf, by simpa using List.find?_some hf⟩
-      rw [this]; rfl
-    | none =>
-      have : n.any (fun ch => Gen.Consts.attrNameReject.contains ch) = false := by
-        rw [List.find?_eq_none] at hf
-        rw [List.any_eq_false]
-        intro x hx
-        simpa using hf x hx
-      rw [this]; rfl
-
 /-- **Materialising the list changes no read**: before any edit the reads on the editable element are the reads
 on the token (`C16_lookup`, `C16_attributes`). -/
 theorem C16_reads_materialise (attrs : AttrList) (q : Bytes) :
@@ -640,18 +605,13 @@ theorem C16_reads_materialise (attrs : AttrList) (q : Bytes) :
     (∀ base, (materialise attrs).map (attrLocationsE base) = attrs.map (attrLocations base)) := by
   have hm : (mapAttributeE (materialise attrs) q).map (·.2.1) = (mapAttribute attrs q).map (·.2.1) := by
     unfold mapAttributeE mapAttribute
-    rw [nameFromString_eq]
-    cases nameFromStringE (asciiLowerBytes q) with
-    | error e => rfl
-    | ok name =>
-      simp only
-      induction attrs with
-      | nil => rfl
-      | cons a as ih =>
-        simp only [materialise, List.map_cons, List.find?_cons]
-        cases eqCaseInsensitive a.1 name with
-        | true => rfl
-        | false => exact ih
+    induction attrs with
+    | nil => rfl
+    | cons a as ih =>
+      simp only [materialise, List.map_cons, List.find?_cons]
+      cases eqCaseInsensitive a.1 (lookupName q) with
+      | true => rfl
+      | false => exact ih
   refine ⟨hm, ?_, ?_, ?_⟩
   · unfold hasAttributeE hasAttribute
     have := congrArg (fun o : Option Bytes => (o.map fun _ => true).getD false) hm
@@ -702,23 +662,11 @@ theorem find_skip {α : Type} (p : α → Bool) (pre : List α) (rest : List α)
 
 /-- the reads of one query, in terms of the lower-cased name -/
 theorem reads_of (items : EAttrList) (q : Bytes) :
-    (∀ name, nameFromStringE (asciiLowerBytes q) = .ok name →
-      getAttributeE items q = (items.find? fun a => eqCaseInsensitive a.1 (asciiLowerBytes q)).map (·.2.1) ∧
-      hasAttributeE items q = (items.find? fun a => eqCaseInsensitive a.1 (asciiLowerBytes q)).isSome) ∧
-    (∀ e, nameFromStringE (asciiLowerBytes q) = .error e → getAttributeE items q = none ∧ hasAttributeE items q = false) := by
-  refine ⟨?_, ?_⟩
-  · intro name hn
-    have := nameFromStringE_ok hn
-    subst this
-    unfold getAttributeE hasAttributeE mapAttributeE
-    rw [hn]
-    refine ⟨rfl, ?_⟩
-    change ((List.find? (fun a => eqCaseInsensitive a.1 (asciiLowerBytes q)) items).map fun _ => true).getD false = _
-    cases List.find? (fun a => eqCaseInsensitive a.1 (asciiLowerBytes q)) items <;> rfl
-  · intro e he
-    unfold getAttributeE hasAttributeE mapAttributeE
-    rw [he]
-    exact ⟨rfl, rfl⟩
+    getAttributeE items q = (items.find? fun a => eqCaseInsensitive a.1 (asciiLowerBytes q)).map (·.2.1) ∧
+    hasAttributeE items q = (items.find? fun a => eqCaseInsensitive a.1 (asciiLowerBytes q)).isSome := by
+  refine ⟨rfl, ?_⟩
+  change ((List.find? (fun a => eqCaseInsensitive a.1 (asciiLowerBytes q)) items).map fun _ => true).getD false = _
+  cases List.find? (fun a => eqCaseInsensitive a.1 (asciiLowerBytes q)) items <;> rfl
 
 /-- **C16_reads_after_set.** After an accepted `set_attribute(x, v)`:
 * `get_attribute(x) = Some(v)`, `has_attribute(x)`;
@@ -759,7 +707,7 @@ theorem C16_reads_after_set (items items' : EAttrList) (x v : Bytes) (h : setAtt
         rw [hs] at h
         simp only [Except.ok.injEq] at h
         exact Or.inr ⟨setFirst_none hs, h.symm⟩
-    have hx := (reads_of items' x).1 _ hn
+    have hx := reads_of items' x
     have other : ∀ y, asciiLowerBytes y ≠ asciiLowerBytes x →
         (items'.find? fun a => eqCaseInsensitive a.1 (asciiLowerBytes y)).map (·.2.1) =
           (items.find? fun a => eqCaseInsensitive a.1 (asciiLowerBytes y)).map (·.2.1) ∧
@@ -795,34 +743,25 @@ theorem C16_reads_after_set (items items' : EAttrList) (x v : Bytes) (h : setAtt
       · rw [h2, find_skip _ items _ h1]
         simp [eqCaseInsensitive, lower_idem]
     · intro y hy
-      cases hny : nameFromStringE (asciiLowerBytes y) with
-      | ok name =>
-        obtain ⟨a1, a2⟩ := (reads_of items' y).1 _ hny
-        obtain ⟨b1, b2⟩ := (reads_of items y).1 _ hny
-        rw [a1, a2, b1, b2]
-        exact other y hy
-      | error e =>
-        obtain ⟨a1, a2⟩ := (reads_of items' y).2 _ hny
-        obtain ⟨b1, b2⟩ := (reads_of items y).2 _ hny
-        rw [a1, a2, b1, b2]
-        exact ⟨rfl, rfl⟩
+      obtain ⟨a1, a2⟩ := reads_of items' y
+      obtain ⟨b1, b2⟩ := reads_of items y
+      rw [a1, a2, b1, b2]
+      exact other y hy
     · rcases shape with ⟨pre, a, post, h1, h2, h3, h4⟩ | ⟨h1, h2⟩
       · exact Or.inl ⟨pre, a, post, h1, fun b hb => (hne b).mp (h2 b hb), (eqCI_iff _ _).mp h3, h4⟩
       · exact Or.inr ⟨fun b hb => (hne b).mp (h1 b hb), h2⟩
 
-/-- **C16_reads_after_remove.** After `remove_attribute(x)` with a name the validator accepts: the list is the old
-list without EVERY attribute named `x` (ASCII-case-insensitively), order kept; `has_attribute(x)` is false,
+/-- **C16_reads_after_remove.** After `remove_attribute(x)`, for EVERY name `x` (no validation: `lookup_name`): the list
+is the old list without EVERY attribute named `x` (ASCII-case-insensitively), order kept; `has_attribute(x)` is false,
 `get_attribute(x)` is `None`; every other query reads what it read before; the flag the element uses to mark the tag
 as modified says whether something was removed. -/
-theorem C16_reads_after_remove (items : EAttrList) (x lname : Bytes) (hn : nameFromStringE (asciiLowerBytes x) = .ok lname) :
+theorem C16_reads_after_remove (items : EAttrList) (x : Bytes) :
     (removeAttribute items x).1 = items.filter (fun a => asciiLowerBytes a.1 != asciiLowerBytes x) ∧
     getAttributeE (removeAttribute items x).1 x = none ∧ hasAttributeE (removeAttribute items x).1 x = false ∧
     (∀ y, asciiLowerBytes y ≠ asciiLowerBytes x →
       getAttributeE (removeAttribute items x).1 y = getAttributeE items y ∧
       hasAttributeE (removeAttribute items x).1 y = hasAttributeE items y) ∧
     ((removeAttribute items x).2 = hasAttributeE items x) := by
-  have hl := nameFromStringE_ok hn
-  subst hl
   have hfind : ∀ (items : EAttrList) (y : Bytes), (List.find? (fun a => eqCaseInsensitive a.1 (asciiLowerBytes y))
         (items.filter (fun a => asciiLowerBytes a.1 != asciiLowerBytes x))) =
       if asciiLowerBytes y = asciiLowerBytes x then none
@@ -869,45 +808,32 @@ theorem C16_reads_after_remove (items : EAttrList) (x lname : Bytes) (hn : nameF
         · simp [hlen]
         · simp [hlen]
   have hrm : (removeAttribute items x).1 = items.filter (fun a => asciiLowerBytes a.1 != asciiLowerBytes x) := by
-    unfold removeAttribute
-    rw [hn]
+    unfold removeAttribute lookupName
     simp only
     congr 1
   refine ⟨hrm, ?_, ?_, ?_, ?_⟩
-  · rw [((reads_of _ x).1 _ hn).1, hrm, hfind]; simp
-  · rw [((reads_of _ x).1 _ hn).2, hrm, hfind]; simp
+  · rw [(reads_of _ x).1, hrm, hfind]; simp
+  · rw [(reads_of _ x).2, hrm, hfind]; simp
   · intro y hy
-    cases hny : nameFromStringE (asciiLowerBytes y) with
-    | ok name =>
-      obtain ⟨a1, a2⟩ := (reads_of (removeAttribute items x).1 y).1 _ hny
-      obtain ⟨b1, b2⟩ := (reads_of items y).1 _ hny
-      rw [a1, a2, b1, b2, hrm, hfind, if_neg hy]
-      exact ⟨by first | rfl | trivial, by first | rfl | trivial⟩
-    | error e =>
-      obtain ⟨a1, a2⟩ := (reads_of (removeAttribute items x).1 y).2 _ hny
-      obtain ⟨b1, b2⟩ := (reads_of items y).2 _ hny
-      rw [a1, a2, b1, b2]
-      exact ⟨by first | rfl | trivial, by first | rfl | trivial⟩
-  · rw [((reads_of items x).1 _ hn).2, ← hflag]
-    unfold removeAttribute
-    rw [hn]
+    obtain ⟨a1, a2⟩ := reads_of (removeAttribute items x).1 y
+    obtain ⟨b1, b2⟩ := reads_of items y
+    rw [a1, a2, b1, b2, hrm, hfind, if_neg hy]
+    exact ⟨by first | rfl | trivial, by first | rfl | trivial⟩
+  · rw [(reads_of items x).2, ← hflag]
+    rfl
 
-/-- a rejected name removes nothing -/
-theorem C16_remove_rejected (items : EAttrList) (x : Bytes) (e : AttrNameError)
-    (hn : nameFromStringE (asciiLowerBytes x) = .error e) : removeAttribute items x = (items, false) := by
-  unfold removeAttribute; rw [hn]
-
-/-- the full-strength statement for `remove_attribute`: afterwards no listed attribute has that name -/
+/-- the statement for `remove_attribute`: afterwards no listed attribute has that name. (Refuted before the repair of
+F8 — `<a =b>`, `remove_attribute("=b")` —; true now.) -/
 def C16_remove_statement : Prop :=
   ∀ (items : EAttrList) (x : Bytes), ∀ a ∈ (removeAttribute items x).1, asciiLowerBytes a.1 ≠ asciiLowerBytes x
 
-/-- **F8 again** (`<a =b>`): `remove_attribute("=b")` leaves the attribute `=b` that `attributes()` lists, because the
-name goes through the setter's validator -/
-theorem C16_remove_counterexample : ¬C16_remove_statement := by
-  intro h
-  have := h [([61, 98], [], none)] [61, 98] ([61, 98], [], none) (by decide)
-  revert this
-  decide
+theorem C16_remove_full : C16_remove_statement := by
+  intro items x a ha
+  rw [(C16_reads_after_remove items x).1, List.mem_filter] at ha
+  simpa using ha.2
+
+/-- the former F8 witness: `remove_attribute("=b")` on `<a =b>` removes the attribute -/
+example : (removeAttribute [([61, 98], [], none)] [61, 98]).1 = [] := by decide
 
 /-- **C16_reads_after_rename.** An accepted `set_tag_name(n)` stores `n` as given: `tag_name()` is its lower-casing,
 `tag_name_preserve_case()` is `n`; the attributes are untouched. -/
@@ -948,7 +874,7 @@ theorem C16_reads_after_edits (t : ETag) :
       (t.apply (.set x v)).1.name = t.name ∧
       ((t.apply (.set x v)).1.items.map (·.1) = t.items.map (·.1) ∨
        (t.apply (.set x v)).1.items = t.items ++ [(asciiLowerBytes x, v, none)])) ∧
-    (∀ x lname, nameFromStringE (asciiLowerBytes x) = .ok lname →
+    (∀ x,
       hasAttributeE (t.apply (.remove x)).1.items x = false ∧
       (∀ y, asciiLowerBytes y ≠ asciiLowerBytes x →
         getAttributeE (t.apply (.remove x)).1.items y = getAttributeE t.items y) ∧
@@ -967,8 +893,8 @@ theorem C16_reads_after_edits (t : ETag) :
       rcases d with ⟨pre, a0, post, h1, _, _, h4⟩ | ⟨_, h2⟩
       · left; rw [h1, h4]; simp
       · right; exact h2
-  · intro x lname hn
-    obtain ⟨a, _, c, d, _⟩ := C16_reads_after_remove t.items x lname hn
+  · intro x
+    obtain ⟨a, _, c, d, _⟩ := C16_reads_after_remove t.items x
     simp only [ETag.apply]
     exact ⟨c, fun y hy => (d y hy).1, by first | rfl | trivial, a⟩
   · intro n hok
